@@ -108,6 +108,26 @@ def run_case(case):
                 rad=(rad(z0) if callable(rad) else rad))
 
 
+def run_pole_on_circle(item):
+    """the first circle passes exactly through the pole of 1/(b - z) (b = z0 + r): that circle carries a non-finite value and must
+    not win the selection; the coefficients (b - z0)^-(k+1) come from the later, smaller circles"""
+    vlib.use_repo()
+    from numdifftools import fornberg as fb
+    z0, r, n = item
+    b = z0 + r
+    try:
+        with np.errstate(all='ignore'):
+            c, info = fb.taylor(lambda z: 1.0 / (b - z), z0, n=n, r=r, full_output=True)
+    except Exception as ex:
+        return dict(error='%s: %s' % (type(ex).__name__, str(ex)[:160]))
+    ex_ = np.array([(b - z0) ** -(k + 1.0) for k in range(len(c))])
+    err = np.abs(np.asarray(c) - ex_)
+    est = np.asarray(info.error_estimate, dtype=float)
+    k = int(np.argmax(np.where(np.isfinite(err), err - 100 * est, np.inf)))
+    return dict(bad=bool((~np.isfinite(np.asarray(c))).any() or not (err <= 100 * est + 1e-9 * np.abs(ex_)).all()), k=k, got=complex(np.asarray(c)[k]), want=float(ex_[k]), est=float(est[k]),
+                status=[bool(info.degenerate), bool(info.failed)])
+
+
 def run_reuse(item):
     """one Taylor object evaluated at a sequence of expansion points: every call is a fresh behaviour of TaylorFFT (the
     search starts from Init: no direction, no counters) and returns, bit for bit, what a new object returns"""
@@ -289,6 +309,13 @@ def run(tier, rep):
                 rep.violation(key, dict(case=name, k=k, error=o['err'][k], error_estimate=o['est'][k], floor=floor, exact_abs=o['exact'][k], R=o['R']),
                               '%s: coefficient %d is off by %.3g, error_estimate %.3g, FFT floor %.3g (|exact| = %.3g)' % (name, k, o['err'][k], o['est'][k], floor, o['exact'][k]))
                 break
+    pitems = [(z0, r, n) for z0 in (0.0, 0.5, 1.0, -0.25) for r in (1.0, 0.5) for n in (4, 8, 12)]
+    for it_, o in zip(pitems, vlib.pool_map(run_pole_on_circle, pitems, chunksize=2)):
+        nm = '1/(b-z) with the pole b = z0 + r on the first circle, z0=%r r=%r n=%d' % it_
+        if 'error' in o:
+            rep.violation('pole-on-circle:raises', dict(case=nm), '%s raised %s' % (nm, o['error']))
+        elif o['bad']:
+            rep.violation('pole-on-circle', dict(case=nm, **o), '%s: coefficient %d is %r, exact %r, error_estimate %.3g (degenerate, failed) = %s' % (nm, o['k'], o['got'], o['want'], o['est'], o['status']))
     # one object reused over several expansion points
     rndr = random.Random(seed + 5)
     Fl = fams()
